@@ -79,15 +79,16 @@ def access_paths(tf, ch, lazy, has_scaling_ok):
         out += [('slice', lambda: N(ch[:])), ('ellipsis', lambda: N(ch[...])), ('read_data', lambda: N(ch.read_data())),
                 ('iter', lambda: scal_list(list(ch))), ('index', lambda: scal_list([ch[i] for i in range(len(ch))])),
                 ('neg-index', lambda: scal_list([ch[i - len(ch)] for i in range(len(ch))]))]
-        if not lazy:
-            out.append(('data', lambda: N(ch.data)))
+        # .data / .raw_data are for eagerly read files; on a lazily opened file they may refuse (raise), but they must not
+        # hand back anything else than the channel's data
+        out.append(('data' if not lazy else 'data?', lambda: N(ch.data)))
     out.append(('unscaled-read_data', lambda: ('U',) + N(ch.read_data(scaled=False))))
-    if not lazy:
+    if True:
         def raw():
             if ch.scaler_data_types and ch.data_type.__name__ == 'DaqMxRawData':
                 return ('U',) + N(ch.raw_scaler_data)
             return ('U',) + N(ch.raw_data)
-        out.append(('unscaled-raw_data', raw))
+        out.append(('unscaled-raw_data' if not lazy else 'unscaled-raw_data?', raw))
     if lazy and has_scaling_ok:
         def chan_chunks():
             parts, off = [], 0
@@ -169,6 +170,8 @@ def run_file(item):
                             res['counters']['accesses'] += 1
                             rr = H.guarded(thunk)
                             exp = base[(raw_ts, ch.path)][1 if an.startswith('unscaled') else 0]
+                            if rr[0] != 'ok' and an.endswith('?'):
+                                continue   # an eager-only API refusing on a lazy file
                             if rr[0] != 'ok':
                                 res['violations'].append(_viol(name, hist, seed, cfg, [ch.path, an], exp, repr(rr), 'access-raised', an))
                             elif rr[1] != exp:
